@@ -44,6 +44,8 @@ def base_array(t):
 
 
 def run(ctx, res):
+    from . import common
+    common.rule_no_addr_canonicalisation(ctx, res)
     fn = 'info_hash::InfoHash::from_ip'
     b = ctx.body(fn)
     res.touch(b)
